@@ -1,4 +1,5 @@
 import GV.Model.Proto
+import GV.Model.ErrorVal
 import GV.Lemmas.Proto
 import GV.Expect.C06
 /-
@@ -116,6 +117,28 @@ theorem C06_late_cancel (s s1 s2 t1 t2 : State) (hr : Reachable s) (h : Returned
     simp only [step, Option.some.injEq] at he1 he2
     subst he1 he2
     rfl
+
+/-- the error handed to the caller carries the master's message: however many times the library wraps it with
+    context (`msgf`), the original text stays inside `Error()`'s string and `Original()` is untouched -/
+theorem C06_message_carried (ori : Bytes) (wraps : List Bytes) :
+    let e := wraps.foldl GV.M.GErr.msgf (GV.M.newError ori)
+    e.original = ori ∧ ∃ pre, e.errorString = pre ++ ori := by
+  have h : ∀ (ws : List Bytes) (e : GV.M.GErr), (ws.foldl GV.M.GErr.msgf e).ori = e.ori := by
+    intro ws
+    induction ws with
+    | nil => intro e; rfl
+    | cons w ws ih => intro e; simp [List.foldl, ih, GV.M.GErr.msgf]
+  intro e
+  refine ⟨h wraps _, ?_⟩
+  refine ⟨e.msg ++ GV.asc " oriErr: ", ?_⟩
+  have : e.ori = ori := h wraps _
+  simp [GV.M.GErr.errorString, this]
+
+/-- in particular for an ERR packet: the master's message text is a suffix of what Error() prints -/
+theorem C06_err_packet_message (code : Nat) (message : Bytes) :
+    ∃ pre, (GV.M.errPacketError code message).errorString = pre ++ message := by
+  refine ⟨GV.asc "fetch error packet" ++ GV.asc " oriErr: " ++ (GV.asc "Error " ++ GV.natDec code ++ GV.asc ": "), ?_⟩
+  simp [GV.M.errPacketError, GV.M.GErr.errorString, GV.M.GErr.msgf, GV.M.newError, GV.M.mysqlErrorText]
 
 /-! non-vacuity: ERR packet, Stream returns nil, late cancel, Error() still reports the failure -/
 example : (run init [.net .fail, .publish, .publish, .publish, .parserSeesClosed, .epilogue, .epilogue, .epilogue,
